@@ -234,6 +234,21 @@ def check_dispatch(ctx, F):
         ctx.ob("C15.D3.spectral", f"spectral_norm_2 with {r} singular value(s) = max(s)" + (" = 0.0" if r == 0 else ""), ok,
                "spectral norm is not the maximum of the singular values of classical_qsvd_full (0 for none)",
                where=f2.where, construct="spectral_norm_2: not max(s)", loc=f2.loc(), detail=short(v))
+    # the singular values must be those of A itself (or of A^H, which has the same ones) - not of A^T or a conjugate
+    for shp in ((2, 3), (3, 2), (2, 2)):
+        got = []
+        A_in = sym_quat("a", shp)
+        it4, _ = new_interp(ctx, summaries={"decomp.qsvd:classical_qsvd_full":
+                                            lambda interp, X, got=got: (got.append(X), ("U", sym_real("s", (2,)), "V"))[1]})
+        st, v = run_guarded(lambda: it4.run(f2, [A_in]))
+        AH = mk((shp[1], shp[0]), "quat")
+        for i in range(shp[0]):
+            for j in range(shp[1]):
+                AH[j, i] = A_in[i, j].conjugate()
+        ok = st == "ok" and len(got) == 1 and isinstance(got[0], SymArr) and (arrays_same(got[0], A_in) or arrays_same(got[0], AH))
+        ctx.ob("C15.D3.spectral", f"spectral_norm_2 decomposes A (or A^H) itself, shape {shp}", ok,
+               "the matrix handed to the Q-SVD is not A or A^H (over the quaternions the transpose / plain conjugate has different "
+               "singular values)", where=f2.where, construct="spectral_norm_2: SVD of a different matrix", loc=f2.loc())
     it3, _ = new_interp(ctx, summaries={"decomp.qsvd:classical_qsvd_full": lambda interp, X: ("U", sym_real("s", (1,)), "V")})
     st, v = run_guarded(lambda: it3.run(f2, [sym_real("r", (2, 2))]))
     ctx.ob("C15.D3.spectral", "spectral_norm_2 rejects a real ndarray", st == "raise" and v.exc_name == "ValueError",
